@@ -334,10 +334,21 @@ def clone_rng(rng_obj):
 # parameter views: what the bandit has learned, in a comparable form
 # --------------------------------------------------------------------------------------------------
 
-def _lp_view(lp, with_status=True):
+def _lp_view(lp, trained=True):
+    """trained=False: the policy object is only a template that is re-fit from scratch for every prediction
+    (Radius / KNearest / LSHNearest) or never fit at all (TreeBandit): only what survives fit() is state."""
     v = {"class": type(lp).__name__, "arms": list(lp.arms)}
-    if with_status:
-        v["status"] = {a: dict(s) for a, s in lp.arm_to_status.items()}
+    for h in ("epsilon", "alpha", "tau", "l2_lambda", "regression", "scale"):
+        if hasattr(lp, h):
+            v[h] = getattr(lp, h)
+    if not trained:
+        if isinstance(lp, _ThompsonSampling):
+            v["binarizer"] = NAME_OF.get(lp.binarizer, str(lp.binarizer is not None))
+        for d in ("arm_to_sum", "arm_to_count", "arm_to_mean", "arm_to_success_count", "arm_to_model"):
+            if hasattr(lp, d):
+                v["keys_" + d] = list(getattr(lp, d).keys())
+        return v
+    v["status"] = {a: dict(s) for a, s in lp.arm_to_status.items()}
     if isinstance(lp, _Popularity) or isinstance(lp, _EpsilonGreedy):
         v.update(sum=dict(lp.arm_to_sum), count=dict(lp.arm_to_count), exp=dict(lp.arm_to_expectation))
     elif isinstance(lp, _UCB1):
@@ -367,7 +378,9 @@ def _tree_view(tree):
     if not hasattr(tree, "tree_"):
         return None
     st = tree.tree_.__getstate__()
-    return {"nodes": kernel.H(st["nodes"].tobytes()), "values": st["values"].copy(), "n": int(tree.tree_.node_count)}
+    nodes = st["nodes"]
+    return {"nodes": {f: np.asarray(nodes[f]).copy() for f in nodes.dtype.names}, "values": st["values"].copy(),
+            "n": int(tree.tree_.node_count)}
 
 
 def pview(mab, per_arm_only=False):
@@ -381,17 +394,17 @@ def pview(mab, per_arm_only=False):
         if hasattr(imp.kmeans, "cluster_centers_"):
             v["kmeans"] = {"centers": imp.kmeans.cluster_centers_, "labels": imp.kmeans.labels_}
         v["lps"] = [_lp_view(lp) for lp in imp.lp_list]
-        v["nan_template"] = dict(imp.arm_to_expectation)
     elif isinstance(imp, _Neighbors):
         v["hist"] = {"dec": imp.decisions, "rew": imp.rewards, "ctx": imp.contexts}
-        v["lp"] = _lp_view(imp.lp)
-        v["nan_template"] = dict(imp.arm_to_expectation)
+        v["lp"] = _lp_view(imp.lp, trained=False)
+        if not isinstance(imp, _KNearest):      # returned to the caller for empty neighbourhoods (Radius, LSH)
+            v["nan_template"] = dict(imp.arm_to_expectation)
         if isinstance(imp, _LSHNearest):
             v["planes"] = {k: p for k, p in imp.table_to_plane.items()}
             v["tables"] = {k: {h: sorted(int(i) for i in t[h]) for h in sorted(t) if len(t[h])}
                            for k, t in imp.table_to_hash_to_index.items()}
     elif isinstance(imp, _TreeBandit):
-        v["lp"] = _lp_view(imp.lp)
+        v["lp"] = _lp_view(imp.lp, trained=False)
         v["trees"] = {a: _tree_view(t) for a, t in imp.arm_to_tree.items()}
         v["leaves"] = {a: {int(leaf): r.copy() for leaf, r in d.items() if len(r)}
                        for a, d in imp.arm_to_leaf_to_rewards.items()}
